@@ -420,6 +420,7 @@ def run(repo, rep, tier):
         raise AnalysisError('only %d attribute defaults found' % r7.sites)
 
     _order_and_text_rules(repo, rep, tp)
+    _linearity(repo, rep)
 
 
 REORDER_FUNCS = {'sorted', 'reversed', 'set', 'frozenset'}
@@ -681,3 +682,20 @@ def _order_and_text_rules(repo, rep, tp):
     judge(repo.func(XML, '_pcdata_nodes'), {'pcdata'}, 'VALUE text',
           allow=('pcdata.split(\']]>\')',))
     judge(repo.func(XML, '_text'), {'data'}, 'VALUE text')
+
+
+def _linearity(repo, rep):
+    """C01.R10: element nodes are linear (see pwsa/linear.py)"""
+    from .. import linear
+    rr = rep.rule('C01.R10', 'every constructed element node is placed into '
+                  'the document at most once (DOM appendChild moves a node)')
+    sites, finds = linear.check(repo)
+    rr.sites = sites
+    if sites < 8:
+        raise AnalysisError('only %d element-node variables found in the '
+                            'tocimxml()/request-building code' % sites)
+    bad = {(f[1], f[2]) for f in finds}
+    for i in range(sites):
+        rr.ob(i >= len(bad), 'node-%d' % i)
+    for file, func, construct, fact, line, msg in finds:
+        rep.finding(rr, func, construct, fact, file, line, msg)
